@@ -182,6 +182,7 @@ def run(ctx, rep):
                 rep.ob("C06.failure-equivalence", "folder %s: float division #%d is guarded by a zero test" % (op, i), verdict, str(info), c.span,
                        fn=g.path, key="C06.failure-equivalence|%s|fpzero#%d" % (op, i))
     fold_width(F, rep)
+    negate_is_numeric(F, rep)
 
 
 WIDTH_OF_KIND = {"Integer": "i32", "BigInt": "i128", "Byte": "u8", "Float": "f64"}
@@ -216,3 +217,78 @@ def fold_width(F, rep):
     rep.ob("C06.fold-width", "every result the folder's operator implementations write was computed at the width of its kind (%d result sites)" % n,
            "ok" if not bad else "violated", "", None, key="C06.fold-width|summary")
     rep.floor("C06.fold-width result sites of the folder's operators", n, 150)
+
+
+def negate_is_numeric(F, rep):
+    """The folder keeps numbers as text.  Number::negate, evaluated abstractly on the texts "5" and "-5" of each kind it accepts, must return the
+    text of the negated number: a result that is not a number's text (`--5`) is emitted as `make_int --5`, which the interpreter refuses."""
+    import absint
+    from absint import Interp, Variant, Str
+    N = "compiler::ast::number::Number"
+    a = F.adt(N)
+    g = F.fn("compiler::ast::number::Number::negate")
+    if a is None or g is None:
+        raise AnchorMissing("Number::negate")
+    names = [v["name"] for v in a["variants"]]
+
+    def deref(it, p, v):
+        k = 0
+        while isinstance(v, absint.Ptr) and k < 6:
+            v = it.deref(p, v)
+            k += 1
+        return v
+
+    def s_add(it, p, fid, fn, t, args):
+        x, y = deref(it, p, args[0]), deref(it, p, args[1])
+        if isinstance(x, Str) and isinstance(y, Str):
+            return Str(x.s + y.s)
+        return NotImplemented
+
+    def s_id(it, p, fid, fn, t, args):
+        x = deref(it, p, args[0])
+        return x if isinstance(x, Str) else NotImplemented
+
+    def strip_prefix(it, p, fid, fn, t, args):
+        x, y = deref(it, p, args[0]), deref(it, p, args[1])
+        if isinstance(x, Str) and isinstance(y, (Str, absint.Int)):
+            pre = y.s if isinstance(y, Str) else chr(y.v)
+            return absint.some(Str(x.s[len(pre):])) if x.s.startswith(pre) else absint.NONE
+        return NotImplemented
+
+    def starts_with(it, p, fid, fn, t, args):
+        x, y = deref(it, p, args[0]), deref(it, p, args[1])
+        if isinstance(x, Str) and isinstance(y, (Str, absint.Int)):
+            pre = y.s if isinstance(y, Str) else chr(y.v)
+            return absint.mkbool(x.s.startswith(pre))
+        return NotImplemented
+    models = dict(absint.DEFAULT_MODELS)
+    models.update({"core::ops::arith::Add::add": s_add, "alloc::borrow::ToOwned::to_owned": s_id, "alloc::string::ToString::to_string": s_id,
+                   "core::clone::Clone::clone": s_id, "core::convert::From::from": s_id, "core::str::<impl str>::strip_prefix": strip_prefix,
+                   "core::str::<impl str>::starts_with": starts_with, "alloc::string::String::as_str": s_id, "core::ops::deref::Deref::deref": s_id})
+    bad, undec, n = [], [], 0
+    for kind in ("Integer", "BigInt", "Float"):
+        if kind not in names:
+            continue
+        for txt, want in (("5", "-5"), ("-5", "5")):
+            if kind == "Float":
+                txt, want = txt + ".0", want + ".0"
+            it = Interp(F, models=models, max_depth=5, max_paths=32)
+            outs = it.run(g, [Variant(N, names.index(kind), kind, [Str(txt)])])
+            n += 1
+            got = set()
+            for o in outs:
+                v = o.value
+                if o.kind == "return" and isinstance(v, Variant) and v.name == "Some" and isinstance(v.fields[0], Variant) and v.fields[0].fields and isinstance(v.fields[0].fields[0], Str):
+                    got.add(v.fields[0].fields[0].s)
+                elif o.kind == "return" and isinstance(v, Variant) and v.name == "None":
+                    got.add(None)
+                else:
+                    got.add("?")
+            if "?" in got or it.exhausted or not got:
+                undec.append("%s(%s)" % (kind, txt))
+            elif got == {None}:
+                continue         # refuses to fold: the run-time negation is used
+            elif got != {want} and not (got == {want.lstrip("+")}):
+                bad.append("-(%s literal `%s`) folds to the text %s, expected `%s`" % (kind.lower(), txt, sorted(repr(x) for x in got), want))
+    rep.ob("C06.negate", "the folder's unary minus returns the text of the negated number (also for a negative operand)", "violated" if bad else ("undecided" if undec else "ok"),
+           "; ".join(bad) or ("not evaluated: %s" % undec if undec else "%d evaluations" % n), g.span, fn=g.path, key="C06.negate|text")
